@@ -541,7 +541,12 @@ def run_instance(inst, tier='quick', seed=0, replay_dir=None, prefix=None, first
             rep['obligations'].append({'name': name, 'status': st, 'time': 0.0, 'backend': 'dedup', 'kind': kind})
             return None
         mv = {n: k for n, k in c.inputs.items()}
-        r = solve.check_sat(q, timeout_s=timeout, model_vars=mv)
+        qcore = None
+        if kind == 'ensures' and goal.op != 'false':
+            qcore, _ = solve.build_query(c, goal, hints=hints, core=True)
+            if len(qcore) == len(q):
+                qcore = None
+        r = solve.check_sat(q, timeout_s=timeout, model_vars=mv, core=qcore)
         rep['solver_time'] += r.time
         if r.status != 'unsat':
             # the directed slice drops hypotheses over derived variables: retry with the full connected component
@@ -570,6 +575,50 @@ def run_instance(inst, tier='quick', seed=0, replay_dir=None, prefix=None, first
             return {'obligation': name, 'model': r.model, 'query': q, 'has_uf': has_uf, 'kind': kind, 'backend': r.backend}
         return None
 
+    # ---- bounded stand-in inside the proof instance: the same contract, checked at run time on the real
+    #      function with floats.  Decides nothing for all inputs; it is what remains when an edit of the
+    #      repository moves the code out of the symbolic engine's reach (UNDECIDED above).
+    nat_stats = {'evaluations': 0, 'valid': 0, 'clauses': 0}
+    rep['native'] = nat_stats
+    try:
+        n = inst.native_n * (4 if tier == 'thorough' else 1) if first_shard else 0
+        already = set()
+        for i in range(n):
+            sc = inst.scales[i % len(inst.scales)] * inst.scale
+            nat = native_run(inst, {}, seed * 104729 + 31 * i + 7, scale=sc)
+            nat_stats['evaluations'] += 1
+            if not nat.get('valid'):
+                continue
+            nat_stats['valid'] += 1
+            nat_stats['clauses'] += len(nat.get('checked', []))
+            failed = list(nat.get('failed', []))
+            if nat.get('mutated') and inst.frame:
+                failed.append('frame[%s]' % ','.join(nat['mutated']))
+            failed = [f for f in failed if f.split('[')[0] not in already]
+            if failed:
+                name = failed[0]
+                payload = {'property': inst.prop, 'function': inst.func, 'instance': inst.name, 'obligation': name,
+                           'kind': 'bounded', 'seed': seed * 104729 + 31 * i + 7, 'scale': sc,
+                           'inputs': _jsonable(nat['inputs']), 'native_failed': failed,
+                           'reproduced_by': 'native run-time contract evaluation (bounded stand-in)'}
+                out = nat.get('outcome')
+                if out is not None:
+                    payload['native_outcome'] = _exc_str(out[1]) if out[0] == 'exc' else _jsonable(
+                        [(p, np.asarray(v) if not isinstance(v, str) else v) for p, v in flatten(out[1])][:6])
+                fn = None
+                if replay_dir:
+                    os.makedirs(replay_dir, exist_ok=True)
+                    fn = os.path.join(replay_dir, _safe('native__%s__%s__%s' % (inst.func.split(':')[-1], inst.name, name)) + '.json')
+                    with open(fn, 'w') as fh:
+                        json.dump(payload, fh, indent=1)
+                rep['violations'].append({'obligation': name, 'kind': 'bounded', 'confirmed': True, 'replay': fn,
+                                          'no_input': False, 'has_uf': False, 'backend': 'native',
+                                          'exception': payload.get('native_outcome') if out and out[0] == 'exc' else None})
+                break
+    except Exception as e:  # noqa
+        rep['error'] = (rep.get('error') or '') + ''.join(traceback.format_exception(type(e), e, e.__traceback__))[-2000:]
+    if any(v.get('kind') == 'bounded' for v in rep['violations']):
+        timeout = min(timeout, 5.0)      # already violated natively: do not spend the full budget on sat-seeking
     try:
         with symnp.patched_numpy(extra=patches):
             for c, out in ex.run_all(thunk, prefix=prefix or ()):
@@ -629,48 +678,6 @@ def run_instance(inst, tier='quick', seed=0, replay_dir=None, prefix=None, first
     except Exception as e:  # noqa  checker crash inside this instance
         rep['error'] = ''.join(traceback.format_exception(type(e), e, e.__traceback__))[-3000:]
     rep['infeasible'] = ex.ninfeasible
-    # ---- bounded stand-in inside the proof instance: the same contract, checked at run time on the real
-    #      function with floats.  Decides nothing for all inputs; it is what remains when an edit of the
-    #      repository moves the code out of the symbolic engine's reach (UNDECIDED above).
-    nat_stats = {'evaluations': 0, 'valid': 0, 'clauses': 0}
-    rep['native'] = nat_stats
-    try:
-        n = inst.native_n * (4 if tier == 'thorough' else 1) if first_shard else 0
-        already = {v['obligation'].split('[')[0] for v in rep['violations']}
-        for i in range(n):
-            sc = inst.scales[i % len(inst.scales)] * inst.scale
-            nat = native_run(inst, {}, seed * 104729 + 31 * i + 7, scale=sc)
-            nat_stats['evaluations'] += 1
-            if not nat.get('valid'):
-                continue
-            nat_stats['valid'] += 1
-            nat_stats['clauses'] += len(nat.get('checked', []))
-            failed = list(nat.get('failed', []))
-            if nat.get('mutated') and inst.frame:
-                failed.append('frame[%s]' % ','.join(nat['mutated']))
-            failed = [f for f in failed if f.split('[')[0] not in already]
-            if failed:
-                name = failed[0]
-                payload = {'property': inst.prop, 'function': inst.func, 'instance': inst.name, 'obligation': name,
-                           'kind': 'bounded', 'seed': seed * 104729 + 31 * i + 7, 'scale': sc,
-                           'inputs': _jsonable(nat['inputs']), 'native_failed': failed,
-                           'reproduced_by': 'native run-time contract evaluation (bounded stand-in)'}
-                out = nat.get('outcome')
-                if out is not None:
-                    payload['native_outcome'] = _exc_str(out[1]) if out[0] == 'exc' else _jsonable(
-                        [(p, np.asarray(v) if not isinstance(v, str) else v) for p, v in flatten(out[1])][:6])
-                fn = None
-                if replay_dir:
-                    os.makedirs(replay_dir, exist_ok=True)
-                    fn = os.path.join(replay_dir, _safe('native__%s__%s__%s' % (inst.func.split(':')[-1], inst.name, name)) + '.json')
-                    with open(fn, 'w') as fh:
-                        json.dump(payload, fh, indent=1)
-                rep['violations'].append({'obligation': name, 'kind': 'bounded', 'confirmed': True, 'replay': fn,
-                                          'no_input': False, 'has_uf': False, 'backend': 'native',
-                                          'exception': payload.get('native_outcome') if out and out[0] == 'exc' else None})
-                break
-    except Exception as e:  # noqa
-        rep['error'] = (rep.get('error') or '') + ''.join(traceback.format_exception(type(e), e, e.__traceback__))[-2000:]
     rep['wall'] = round(time.time() - t0, 3)
     return rep
 
